@@ -426,7 +426,14 @@ fn generator_draws(k: usize, sink: &Sink) -> Result<(u64, u64, u64), String> {
                 let mut es: Vec<(u64, u64, u32, usize)> = Vec::new();
                 for line in body[..end].lines().filter(|l| l.contains("MagicEntry {")) {
                     let field = |key: &str| -> Option<String> { line.split(&format!("{}: ", key)).nth(1).map(|r| r.split(|c| c == ',' || c == ' ' || c == '}').next().unwrap_or("").to_string()) };
-                    let hex = |s: String| u64::from_str_radix(s.trim_start_matches("0x"), 16).ok();
+                    // hexadecimal (0x...) or decimal literals, underscores allowed
+                    let hex = |s: String| {
+                        let t = s.replace('_', "");
+                        match t.strip_prefix("0x").or_else(|| t.strip_prefix("0X")) {
+                            Some(h) => u64::from_str_radix(h, 16).ok(),
+                            None => t.parse::<u64>().ok(),
+                        }
+                    };
                     let mask = field("mask").and_then(hex).ok_or("bad mask")?;
                     let magic = field("magic").and_then(hex).ok_or("bad magic")?;
                     let shift: u32 = field("shift").and_then(|s| s.parse().ok()).ok_or("bad shift")?;
